@@ -101,14 +101,18 @@ Next ==
          g1 == st[1]
          V == Viol(o, g1)
          skip == dead /\ ~isInit
+         \* a step that was still in progress (held) when the next one happened has no state of
+         \* its own: the model's prediction stands in for it
+         held == r.held
      IN /\ truth' = r.rows /\ nref' = r.refreshes
-        /\ g' = [g1 EXCEPT !.moved = {a \in @ : ~Healthy(o, a)}]
-        /\ d' = DOf(o)
-        /\ dead' = IF isInit THEN (V \ NonFatal # {}) ELSE dead \/ (V \ NonFatal # {})
-        /\ rep' = IF skip THEN [kind |-> "skipped", sc |-> r.sc, k |-> r.k]
+        /\ g' = IF held THEN g1 ELSE [g1 EXCEPT !.moved = {a \in @ : ~Healthy(o, a)}]
+        /\ d' = IF held THEN st[2] ELSE DOf(o)
+        /\ dead' = IF held THEN dead ELSE IF isInit THEN (V \ NonFatal # {}) ELSE dead \/ (V \ NonFatal # {})
+        /\ rep' = IF held THEN [kind |-> "ok", sc |-> r.sc, k |-> r.k]
+                  ELSE IF skip THEN [kind |-> "skipped", sc |-> r.sc, k |-> r.k]
                   ELSE IF V # {} THEN [kind |-> "viol", sc |-> r.sc, k |-> r.k, kinds |-> V, line |-> l]
                   \* (no unique prediction while a host id is reported twice)
-                  ELSE IF ~g1.dup /\ (~SameD(DOf(o), st[2], g1) \/ r.refreshes # st[3])
+                  ELSE IF ~g1.dup /\ (~SameD(DOf(o), st[2], g1) \/ (r.ov = "" /\ r.refreshes # st[3]))
                     THEN [kind |-> "drift", sc |-> r.sc, k |-> r.k, line |-> l, op |-> r.op,
                           expected |-> [hosts |-> st[2].hosts, byaddr |-> st[2].byAddr, pool |-> st[2].pool,
                                         pol |-> st[2].pol, down |-> st[2].down, refreshes |-> st[3]]]
